@@ -54,7 +54,7 @@ Fixpoint map_res {A B} (f : A -> res B) (xs : list A) : res (list B) :=
   | x :: r => y <- f x ;; ys <- map_res f r ;; Ok (y :: ys)
   end.
 
-Definition cell := option nat.
+Notation cell := (option nat) (only parsing).
 Definition cand := list (nat * list cell).
 
 (** [l == level] / [l is level] for a cell and level number [l] of the cell's factor *)
